@@ -550,10 +550,34 @@ class _S3L:
         self.t, self.location = t, location
 
 
+def _s3_paths(task):
+    paths = []
+    for dpt in range(1, task["depth"] + 1):
+        for combo in itertools.product(S3_COMPONENTS, repeat=dpt):
+            rel = "/".join(combo)
+            paths += [rel, "/" + rel]
+    paths += ["../t10/data/x.parquet", "/data/../../t10/data/x.parquet", "data/../../../secret.txt", "../../secret.txt", "..//t10/data/x.parquet", "data/./../../t1x/secret.txt",
+              "s3://bkt/warehouse/t10/data/x.parquet", "/warehouse/t10/data/x.parquet", "warehouse/t10/data/x.parquet", "../t1x/secret.txt", "..", "../", "/..", "../t10"]
+    if task.get("only"):
+        return [task["only"][1]]
+    return [p for i, p in enumerate(paths) if i % task["nshard"] == task["shard"]]
+
+
+S3_BLOCK = 300  # paths per fresh bucket: accepted writes/commits accumulate, and listing/metadata cost grows with them
+
+
 def run_s3paths(task):
     from ..world import S3World
 
     res = Result()
+    mine = _s3_paths(task)
+    for b0 in range(0, len(mine), S3_BLOCK):
+        _run_s3_block(task, mine[b0:b0 + S3_BLOCK], b0, res, S3World)
+    res.extra["s3_exhaustive_to_depth"] = task["depth"]
+    return res
+
+
+def _run_s3_block(task, paths, b0, res, S3World):
     w = S3World(table="t1", env_prefix="warehouse")
     root = w.key_prefix + "/"
     with w.env():
@@ -564,22 +588,12 @@ def run_s3paths(task):
         for k, b in sentinels.items():
             w.fake.raw_put(k, b)
         fp0 = {k: (w.fake.objects[k]["body"], w.fake.objects[k]["etag"]) for k in sentinels}
-        paths = []
-        for dpt in range(1, task["depth"] + 1):
-            for combo in itertools.product(S3_COMPONENTS, repeat=dpt):
-                rel = "/".join(combo)
-                paths += [rel, "/" + rel]
-        paths += ["../t10/data/x.parquet", "/data/../../t10/data/x.parquet", "data/../../../secret.txt", "../../secret.txt", "..//t10/data/x.parquet", "data/./../../t1x/secret.txt",
-                  "s3://bkt/warehouse/t10/data/x.parquet", "/warehouse/t10/data/x.parquet", "warehouse/t10/data/x.parquet", "../t1x/secret.txt", "..", "../", "/..", "../t10"]
-        if task.get("only"):
-            paths = [task["only"][1]]
         L = _S3L(t, w.location())
         seen = []
         w.fake.hook = lambda phase, op, key, req: seen.append((op, key)) if phase == "before" else None
         try:
-            for i, path in enumerate(paths):
-                if i % task["nshard"] != task["shard"]:
-                    continue
+            for j, path in enumerate(paths):
+                i = b0 + j
                 for ep in (S3_EPS if not task.get("only") else [task["only"][0]]):
                     del seen[:]
                     try:
@@ -599,8 +613,6 @@ def run_s3paths(task):
         fp1 = {k: (w.fake.objects[k]["body"], w.fake.objects[k]["etag"]) if k in w.fake.objects else None for k in sentinels}
         if fp1 != fp0:
             res.violation("sentinel-changed/s3", f"objects outside the table prefix changed: {[k for k in sentinels if fp1[k] != fp0[k]]}", {"kind": "s3paths", "task": task})
-    res.extra["s3_exhaustive_to_depth"] = task["depth"]
-    return res
 
 
 def plan(tier, seed):
@@ -615,8 +627,9 @@ def plan(tier, seed):
             tasks.append({"kind": "tamper", "via_symlink": via, "shard": s, "nshard": ns})
     for s in range(3):
         tasks.append({"kind": "late", "shard": s, "nshard": 3})
-    for s in range(4):
-        tasks.append({"kind": "s3paths", "depth": 3 if tier == "quick" else 4, "shard": s, "nshard": 4})
+    ns = 4 if tier == "quick" else 16
+    for s in range(ns):
+        tasks.append({"kind": "s3paths", "depth": 3 if tier == "quick" else 4, "shard": s, "nshard": ns})
     n = 150 if tier == "quick" else 8000
     for s in range(2 if tier == "quick" else 8):
         tasks.append({"kind": "deep", "n": n, "seed": seed * 1000 + s, "tier": tier})
